@@ -14,8 +14,8 @@ import (
 	"sort"
 	"strings"
 	gosync "sync"
-	"testing"
 	"testing/synctest"
+	"time"
 
 	"github.com/gorilla/websocket"
 
@@ -383,19 +383,15 @@ func (s *wsim) checkStreams() {
 
 func wssimRun(c *vrun.Ctx) {
 	s := &wsim{c: c, t: c.Tape}
-	func() {
-		defer func() {
-			if r := recover(); r != nil {
-				msg := fmt.Sprint(r)
-				if strings.Contains(msg, "deadlock") {
-					c.Probe("bubble-ended-with-blocked-goroutines")
-					return
-				}
-				c.Violate("no-crash", "C17/ws-panic", "panic: %s", msg)
-			}
-		}()
-		synctest.Test(c.T, func(t *testing.T) { s.body() })
-	}()
+	msg, stuck := vrun.Bubble(c.T, 25*time.Second, s.body)
+	switch {
+	case stuck:
+		c.Violate("progress", "C17/ws-wedge/never-quiescent", "the simulation never became quiescent: a goroutine of the server is blocked for ever on something that is not a channel or the network (a mutex); history %v", s.descs)
+	case strings.Contains(msg, "deadlock"):
+		c.Probe("bubble-ended-with-blocked-goroutines")
+	case msg != "":
+		c.Violate("no-crash", "C17/ws-panic", "panic: %s", msg)
+	}
 	if !c.Failed() {
 		s.checkStreams()
 	}
